@@ -7,8 +7,8 @@ MANIFEST = dict(
          "to exactly one worker; workers are intercepted by a pthread monitor. Worker frames / MT==ST on bounded shapes; condensed index map "
          "bijection facts for n <= 64.",
     note="pthread_create/join replaced by a monitor (assumed contract: a worker runs once between create and join). Thread count bounded "
-         "(8 quick / 24 thorough) by unwinding; rows symbolic <= 2^20. The slicing loops of MDC and KMeansppCenters (2 of the 10 sites, same pattern) are embedded in data-dependent outer "
-         "loops and are not covered. Numerical distance axioms (triangle inequality etc.) not decided.",
+         "(8 quick / 24 thorough) by unwinding; rows symbolic <= 2^20. The slicing loop of KMeansppCenters is embedded in a data-dependent outer loop and is checked for concrete small row/thread counts only; "
+         "MDC's (same pattern, 1 of the 10 sites) is not covered. Numerical distance axioms (triangle inequality etc.) not decided.",
     technique="CBMC on the real slicing loops with a pthread monitor contract; rows symbolic, thread count by unwinding with unwinding assertions")
 
 META = dict(decided="row partition among workers for MT matrix-vector kernels, distance kernels, k-means labelling; worker write frames; index map facts",
@@ -67,6 +67,13 @@ def jobs(tier):
                              kind="bounded", defines=d, unwind=max(r1, c, nth, r1 * (r1 - 1) // 2) + 2, functions=["SquaredEuclideanDistanceCondensed", "ManhattanDistanceCondensed"],
                              bound="concrete shape/thread count %s; IEEE cell values symbolic" % tag,
                              clause="condensed driver with this thread count == upper triangle of the ST square form"))
+    for rows in ((2, 3, 5) if tier == "quick" else (2, 3, 4, 5, 6, 7)):
+        for nth in ((1, 2, 3, 4) if tier == "quick" else (1, 2, 3, 4, 5, 6, 8)):
+            J.append(Job("slice_KMeansppCenters@rows=%d,nth=%d" % (rows, nth), "C13/slicing_kmpp.c", entry="h_slice_KMeansppCenters",
+                         srcs=["vector.c", "memwrapper.c", "numeric.c", "matrix.c", "metricspace.c"], kind="bounded", defines={"VC_ROWS": rows, "VC_NTH": nth},
+                         unwind=max(rows, nth) + 4, functions=["KMeansppCenters"], object_bits=10,
+                         bound="concrete rows=%d, threads=%d (outer seeding loop is data dependent); one seeding round" % (rows, nth),
+                         clause="k-means++ distance pass: every row is handed to exactly one worker (counts above / not dividing the row count, and one)"))
     J.append(Job("index_map", "C13/index_map.c", srcs=["metricspace.c", "matrix.c", "vector.c", "memwrapper.c", "numeric.c"], kind="bounded",
                  defines={"VC_NMAX": 64}, functions=["square_to_condensed_index"], timeout=900,
                  bound="n symbolic <= 64 (64-bit multiply/divide facts did not finish for larger n on any back end); loop-free",
